@@ -157,7 +157,7 @@ func C06(c *Ctx, r *report.Run) error {
 	// collection rules (items.*, min/max_items, pairs): the rule-satisfying witnesses must validate against the published schema
 	rs, _ := univ.RuleSpecs(c.Thorough)
 	for _, s := range rs {
-		if s.Name == "rules_collections" || s.Name == "rules_string" || s.Name == "rules_double" || s.Name == "rules_shapes" || s.Name == "rules_bytes" {
+		if s.Name == "rules_collections" || s.Name == "rules_string" || s.Name == "rules_double" || s.Name == "rules_shapes" || s.Name == "rules_bytes" || s.Name == "rules_affix" {
 			specs = append(specs, s)
 		}
 	}
